@@ -102,7 +102,8 @@ def mutate(r: random.Random, pol: dict) -> dict:
                                            {"in": [[1], 5]}, {"startsWith": [1, "a"]}, {"rel": {"relation": "viewer", "ctx": 5}},
                                            {"rel": {"relation": "viewer", "extra": 1}}, {"rel": ""}, {"not": {"==": [1]}},
                                            {"rel": {"relation": "viewer", "ctx": [1]}}, {"rel": {"relation": "viewer", "ctx": "x"}},
-                                           {"!=": [1, 2, 3]}, {"or": [{"and": "ab"}]}, {"and": {"==": [1, 1]}}])
+                                           {"!=": [1, 2, 3]}, {"or": [{"and": "ab"}]}, {"and": {"==": [1, 1]}}, {"and": [{"==": [1]}]},
+                                           {"or": [False, {"!=": [1, 2, 3]}]}])
     elif k == 5:
         rule["obligations"] = gen.choice(r, [["x"], [None], {"type": "require_mfa"}, "mfa", [{"type": 5}], [{}]])
     elif k == 6:
